@@ -367,7 +367,12 @@ def r_formula(ctx):
             row.done()
         # consume
         cp = items.get("consume")
-        for tt, I in arms(cp) if cp else []:
+        from .bounds import range_handle_invariants as _rhi
+        try:
+            inv_, _r = _rhi(ctx, adt)
+        except Exception:
+            inv_ = None
+        for tt, I in (ctx.arms(cp, entry_facts=inv_) or []) if cp else []:
             row = Row(res, ctx, "%s::consume" % name, cp, tt, I)
             st, fl = _final_len(I)
             sh = shifts(I)
@@ -1022,7 +1027,7 @@ def _backend_growth_rows(res, ctx, arms):
                 # the new size must be R when R > D and D when R <= D - however `max` is spelled
                 R = size + add
                 verdicts = []
-                for D in (Poly.atom(("saturating_mul", size, Poly.const(2))), size * Poly.const(2)):
+                for D in (Poly.atom(("saturating_mul",) + tuple(sorted([size, Poly.const(2)], key=repr))), size * Poly.const(2)):
                     got = {}
                     for case, ef, want in (("R>D", [("ge0", R - D - ONE)], R), ("R<=D", [("ge0", D - R)], D)):
                         for tt2, I2 in ctx.arms(p, entry_facts=ef) or []:
